@@ -40,7 +40,7 @@ ASSUMPTIONS = [
     'DEBUG mode is excluded (it deliberately re-raises without restoring); RESET "<network>" is excluded (needs a network).',
     'Lazy-diff update lists are compared as sets keyed by key_hash (their order depends on hash seeds).',
 ]
-EXPECTED_PROBES = ['failed_after_origination_or_sapling_index', 'failed_after_registering_chain_big_map', 'failed_after_alloc_tmp_id', 'failed_after_context_patch', 'commit_after_failure_two_big_maps', 'fault_injected_exit', 'fault_injected_entry',
+EXPECTED_PROBES = ['failed_after_exec_of_context_changing_lambda', 'run_failed_inside_contract_code', 'failed_after_origination_or_sapling_index', 'failed_after_registering_chain_big_map', 'failed_after_alloc_tmp_id', 'failed_after_context_patch', 'commit_after_failure_two_big_maps', 'fault_injected_exit', 'fault_injected_entry',
                    'failure_inside_nested_block', 'failed_run_after_clear', 'failed_begin', 'failed_commit']
 
 KV = 'int string'
@@ -56,11 +56,15 @@ STORAGES = {
     'map_bm': ('map string (big_map int string)', ['{ Elt "a" {} }', '{ Elt "a" { Elt 1 "x" } ; Elt "b" {} }', '{ Elt "a" 5 ; Elt "b" { Elt 2 "y" } }'], 2),
     # a big_map passed in the parameter is registered as a copy of an on-chain big_map
     'pbm': ('big_map int string', ['{}', '5', '{ Elt 2 "s" }'], 1),
+    # boolean parameter: the contract code fails for True (see COND_CODE)
+    'bm_cond': ('big_map int string', ['{}', '{ Elt 1 "a" }', '6'], 1),
 }
-PARAMS = {'pbm': ('big_map int string', ['7', '{}', '6', '{ Elt 1 "p" }'])}
+PARAMS = {'pbm': ('big_map int string', ['7', '{}', '6', '{ Elt 1 "p" }']), 'bm_cond': ('bool', ['False'])}
 CHAIN_BIG_MAPS = {5: {1: 'five-1', 2: 'five-2'}, 6: {3: 'six-3'}, 7: {1: 'seven-1', 4: 'seven-4'}}
 URI = 'http://node0.sim:8732'
 CODE = 'code { CDR ; NIL operation ; PAIR }'
+# code that fails when the parameter is True, after BEGIN/RUN attached (and numbered) the storage big_maps
+COND_CODE = 'code { UNPAIR ; IF { EMPTY_BIG_MAP int string ; PUSH string "boom" ; PAIR ; FAILWITH } { NIL operation ; PAIR } }'
 FAIL_TAILS = {
     'failwith': ['UNIT', 'FAILWITH'],
     'illtyped_add': ['PUSH int 1', 'PUSH string "x"', 'ADD'],
@@ -70,6 +74,12 @@ FAIL_TAILS = {
     'in_dip': ['PUSH int 0', 'DIP { UNIT ; FAILWITH }'],
     'in_iter': ['PUSH (list int) { 1 ; 2 }', 'ITER { DROP ; UNIT ; FAILWITH }'],
     'in_lambda': ['LAMBDA unit unit { FAILWITH }', 'UNIT', 'EXEC'],
+    'in_if': ['PUSH bool True', 'IF { EMPTY_BIG_MAP int string ; FAILWITH } { }'],
+    'in_loop': ['PUSH bool True', 'LOOP { SAPLING_EMPTY_STATE 8 ; DROP ; UNIT ; FAILWITH }'],
+    'in_map': ['PUSH (list int) { 1 ; 2 ; 3 }', 'MAP { PUSH int 2 ; COMPARE ; EQ ; IF { UNIT ; FAILWITH } { EMPTY_BIG_MAP int string ; DROP ; PUSH int 0 } }'],
+    'in_dip2': ['PUSH int 0', 'PUSH int 1', 'DIP 2 { EMPTY_BIG_MAP int string ; UNIT ; FAILWITH }'],
+    'dig_short': ['DIG 7'],
+    'run_fails_in_code': None,  # RUN whose contract code fails after the storage was attached (needs the conditional code below)
     'bad_run': ['RUN %default Unit "ill-typed"'],
     'bad_begin': ['BEGIN Unit "ill-typed"'],
     'bad_commit': ['PUSH int 1', 'COMMIT'],
@@ -102,6 +112,17 @@ NEUTRAL = [
 ]
 
 
+# groups of consecutive cells that are stack-neutral as a whole: a lambda whose body changes the context (temporary big_map id,
+# origination index, sapling index) is pushed by one cell, executed by later cells that do not name those primitives, then dropped
+NEUTRAL_GROUPS = [
+    [['LAMBDA unit unit { DROP ; EMPTY_BIG_MAP int string ; DROP ; UNIT }'], ['DUP', 'UNIT', 'EXEC', 'DROP'], ['DUP', 'UNIT', 'EXEC', 'DROP', 'PUSH int 1', 'DROP'], ['DROP']],
+    [['LAMBDA unit address { DROP ; PUSH int 0 ; PUSH mutez 0 ; NONE key_hash ; CREATE_CONTRACT { parameter unit ; storage int ; code { CDR ; NIL operation ; PAIR } } ; DROP }'],
+     ['DUP', 'UNIT', 'EXEC', 'DROP'], ['DROP']],
+    [['LAMBDA unit unit { DROP ; SAPLING_EMPTY_STATE 8 ; DROP ; UNIT }'], ['PUSH int 5', 'DIP { DUP ; UNIT ; EXEC ; DROP }', 'DROP'], ['DROP']],
+    [['PUSH int 1', 'PUSH int 2'], ['DIG 1', 'DROP'], ['DROP']],
+]
+
+
 def bm_op(rng, tag):
     k = rng.randint(1, 4)
     v = f'{tag}{rng.randint(0, 99)}'
@@ -121,10 +142,10 @@ def bm_op(rng, tag):
 
 def good_session(rng, tier):
     """A list of cells (each a list of instruction strings) designed to succeed."""
-    shape = rng.choice(['bm', 'bm', 'bm_bm', 'bm_bm', 'bm_int', 'bm3', 'int', 'pbm', 'pbm', 'map_bm', 'map_bm'])
+    shape = rng.choice(['bm', 'bm', 'bm_bm', 'bm_bm', 'bm_int', 'bm3', 'int', 'pbm', 'pbm', 'map_bm', 'map_bm', 'bm_cond', 'bm_cond'])
     ty, lits, nbm = STORAGES[shape]
     pty, plits = PARAMS.get(shape, ('unit', ['Unit']))
-    cells = [[f'parameter ({pty}) ; storage ({ty}) ; {CODE}']]
+    cells = [[f'parameter ({pty}) ; storage ({ty}) ; {COND_CODE if shape == "bm_cond" else CODE}']]
     rounds = rng.choice([1, 2, 2, 3])
     for rd in range(rounds):
         tag = 'abcdef'[rd]
@@ -133,7 +154,7 @@ def good_session(rng, tier):
         if rng.random() < 0.2 and rd > 0:
             cells.append([f'RUN %default {rng.choice(plits)} {rng.choice(lits)}'])
         if fresh:
-            if shape in ('bm', 'pbm'):
+            if shape in ('bm', 'pbm', 'bm_cond'):
                 body.append(['EMPTY_BIG_MAP int string'])
                 for _ in range(rng.randint(0, 3)):
                     body.append(bm_op(rng, tag))
@@ -167,7 +188,7 @@ def good_session(rng, tier):
         else:
             body.append([f'BEGIN {rng.choice(plits)} {rng.choice(lits)}'])
             body.append(['CAR' if (shape == 'pbm' and rng.random() < 0.4) else 'CDR'])
-            if shape in ('bm', 'pbm'):
+            if shape in ('bm', 'pbm', 'bm_cond'):
                 for _ in range(rng.randint(0, 4)):
                     body.append(bm_op(rng, tag))
             elif shape == 'bm_bm':
@@ -209,6 +230,8 @@ def good_session(rng, tier):
         for c in merged:
             if rng.random() < 0.25:
                 cells.append(list(rng.choice(NEUTRAL)))
+            elif rng.random() < 0.12:
+                cells.extend([list(x) for x in rng.choice(NEUTRAL_GROUPS)])
             cells.append(c)
     return shape, cells
 
@@ -230,7 +253,9 @@ def gen(seed, tier):
                 k = rng.randint(0, len(src))
                 tname = rng.choice(tails)
                 tail = FAIL_TAILS[tname]
-                if tail is None and tname == 'begin_then_fail':
+                if tail is None and tname == 'run_fails_in_code':
+                    tail = [f'RUN %default True {rng.choice(lits)}'] if shape == 'bm_cond' else ['UNIT', 'FAILWITH']
+                elif tail is None and tname == 'begin_then_fail':
                     tail = [f'BEGIN {plits[0]} {lits[0]}', 'UNIT', 'FAILWITH']
                 elif tail is None:
                     idlits = [x for x in lits if any(ch.isdigit() for ch in x) and 'Elt' not in x and x not in ('0',)] or lits
@@ -335,12 +360,16 @@ def _execute(scn, want_log, Interpreter, make_shell, sim, node):
                 bump(probes, 'failed_after_alloc_tmp_id')
             if 'PATCH' in text:
                 bump(probes, 'failed_after_context_patch')
+            if 'EXEC' in text and 'LAMBDA' not in text:
+                bump(probes, 'failed_after_exec_of_context_changing_lambda')
             if 'CREATE_CONTRACT' in text or 'SAPLING_EMPTY_STATE' in text:
                 bump(probes, 'failed_after_origination_or_sapling_index')
-            if 'DIP {' in text or 'ITER {' in text or 'LAMBDA' in text:
+            if any(tok in text for tok in ('DIP {', 'DIP 2 {', 'ITER {', 'LAMBDA', 'IF {', 'LOOP {', 'MAP {')):
                 bump(probes, 'failure_inside_nested_block')
             if 'RUN %default' in text:
                 bump(probes, 'failed_run_after_clear')
+                if 'RUN %default True' in text:
+                    bump(probes, 'run_failed_inside_contract_code')
             if 'BEGIN ' in text:
                 bump(probes, 'failed_begin')
                 if any(f'BEGIN {pl} ' in text for pl in ('7', '6')) or any(tok in text for tok in (' 5 ;', ' 6 ;', '(Pair 5', ' 5) ;')):
